@@ -1379,3 +1379,24 @@ Proof.
   - apply (cross_item_read_not_independent _ _ (LBiasE 1)); cbn; auto.
   - vm_compute. split; reflexivity.
 Qed.
+
+(* =========================================================================================== *)
+(* 13. Script callbacks                                                                          *)
+(* =========================================================================================== *)
+Lemma serial_callbacks_correct (vs : list nat) (slot : Z) (f : nat -> Z) :
+  slot_exec (serial_callbacks vs) slot f = map (fun v => (v, f v)) vs.
+Proof.
+  revert slot. induction vs as [|v r IH]; intros slot; cbn [serial_callbacks flat_map app slot_exec map]; auto.
+  fold (serial_callbacks r). rewrite IH. reflexivity.
+Qed.
+
+(* two callbacks entered concurrently (collection moved into a parallel loop): the first variable fetches the second one's result *)
+Lemma concurrent_callbacks_refuted :
+  exists (ops : list (nat * bool)) (f : nat -> Z),
+    Permutation ops (serial_callbacks [0; 1]) /\ slot_exec ops 0%Z f <> map (fun v => (v, f v)) [0; 1].
+Proof.
+  exists [(0, true); (1, true); (0, false); (1, false)], (fun v => match v with 0 => 3%Z | _ => 104%Z end).
+  split.
+  - cbn. apply perm_skip. apply perm_swap.
+  - vm_compute. discriminate.
+Qed.
